@@ -24,7 +24,7 @@ RULE = ("(a) Whole-run twins: plans whose engines are index-stable (DE +-dither,
 NONTRIVIAL_RULE = "a whole-run twin pair compared after >= 1 sprout, or >= 1 shadow twin of an engine step / filter / R5S call compared"
 EXPECTED_PROBES = ["c13-twin-runs-compared", "c13-twin-with-cma", "c13-twin-with-local", "c13-twin-with-de-shade",
                    "c13-twin-with-sprouts", "c13-shadow-engine-steps", "c13-shadow-demelimit", "c13-shadow-levellimit",
-                   "c13-shadow-r5s", "c13-twin-budget-sentinels"]
+                   "c13-shadow-r5s", "c13-twin-budget-sentinels", "c13-twin-mirror-by-wrapper-compared"]
 ASSUMPTIONS = ["MWEA's utility and FitnessSteadiness are direction-specific by the property's own text and are excluded",
                "NBC's direction symmetry is decided by C15's mirrored metamorphic re-run"]
 WALL_S = 90.0
@@ -94,6 +94,18 @@ def mirror_plan(plan):
         for l in st["layers"]:
             if l["kind"] == "precision":
                 l["opt"] = -l["opt"]
+    return m
+
+
+def mirror_by_wrapper_plan(plan):
+    """The mirrored formulation written the other natural way: the SAME (f, maximize) problem inside a user-defined
+    wrapper that turns it round (minimise Mirrored(p)), instead of a fresh FunctionProblem for -f."""
+    m = copy.deepcopy(plan)
+    for st in m["stacks"]:
+        for l in st["layers"]:
+            if l["kind"] == "precision":
+                l["opt"] = -l["opt"]
+        st["layers"].insert(0, {"kind": "mirror"})
     return m
 
 
@@ -344,6 +356,20 @@ def run(plan):
                             pass
                     if d is not None:
                         w.violate(PROP, "twin-differs/" + str(d.get("class", d.get("field", "run"))), d)
+                    elif plan["seed"] % 3 == 0:
+                        w3 = build.execute(mirror_by_wrapper_plan(plan), ())
+                        try:
+                            w.probe("c13-twin-mirror-by-wrapper-compared")
+                            if w3.final_tree is not None:
+                                d3 = struct_mirror_equal(tree_struct(t1), tree_struct(w3.final_tree))
+                                if d3 is None and w3.n_requests != w.n_requests:
+                                    d3 = {"requests": [w.n_requests, w3.n_requests]}
+                                if w3.outcome != w.outcome:
+                                    d3 = d3 or {"outcomes": [w.outcome, w3.outcome]}
+                                if d3 is not None:
+                                    w.violate(PROP, "twin-by-wrapper-differs/" + str(d3.get("class", d3.get("field", "run"))), d3)
+                        finally:
+                            w3.dispose()
             finally:
                 w2.dispose()
         return runner.summarize_world(w, mod, plan)
